@@ -10,6 +10,7 @@
   (`FiltI`).  Statements only; the proofs are in Echse/Lemmas/Stream*.lean.
 -/
 import Echse.Lemmas.Stream6
+import Echse.Lemmas.Evrdat
 namespace C02
 open Echse.Stream
 
@@ -140,5 +141,49 @@ theorem inside_duration_delivered :
 -- the hypotheses of the general theorems hold for these lists
 example : SrcOK [⟨t0, 0, 1⟩, ⟨t1, 0, 1⟩, ⟨t2, 0, 1⟩] ∧ SrcOK [⟨t1, 0, 1⟩] := by
   unfold SrcOK NonNul Sorted Words; decide
+
+/-! ### the RDATE / EXDATE lists as one stream (__make_evrdat) -/
+
+section evrdat
+open Echse.Instant Echse.Evrdat
+
+/-- `instant_soup`: a DATE keeps its day and takes the time of day of DTSTART … -/
+theorem soup_date (b w : Inst) (h : w.H = allDay) :
+    (soup b w).y = w.y ∧ (soup b w).m = w.m ∧ (soup b w).d = w.d ∧
+    (soup b w).H = b.H ∧ (soup b w).M = b.M ∧ (soup b w).S = b.S ∧ (soup b w).ms = b.ms :=
+  Echse.Evrdat.soup_date b w h
+
+/-- … a DATE-TIME is left as it is -/
+theorem soup_timed (b w : Inst) (h : w.H ≠ allDay) : soup b w = w := Echse.Evrdat.soup_timed b w h
+
+/-- nothing is lost, nothing invented: the stream holds exactly the (souped) instants listed -/
+theorem rdate_members (dtstart : Inst) (ds : List Inst) (h : ds.length < 1024) :
+    ∀ x, x ∈ makeEvrdat dtstart ds ↔ x ∈ ds.map (soup dtstart) :=
+  makeEvrdat_mem dtstart ds h
+
+/-- strictly increasing — sorted, and an instant listed several times occurs once — exactly when
+the compared word `pk x = (bump x).pack` tells the listed instants apart (`KeyInj`) -/
+theorem rdate_ascending_iff (dtstart : Inst) (ds : List Inst) (h : ds.length < 1024) :
+    (makeEvrdat dtstart ds).Pairwise (fun a b => ltP a b = true) ↔
+      ∀ x ∈ ds.map (soup dtstart), ∀ y ∈ ds.map (soup dtstart), (bump x).pack = (bump y).pack → x = y :=
+  ⟨keyInj_of_ascending dtstart ds h, makeEvrdat_ascending dtstart ds h⟩
+
+/-- which is so when every field fits its bit-field (`C08.Fits`; e.g. `C08.fits_of_normal*`) -/
+theorem rdate_ascending (dtstart : Inst) (ds : List Inst) (h : ds.length < 1024)
+    (hf : ∀ x ∈ ds.map (soup dtstart), C08.Fits x) :
+    (makeEvrdat dtstart ds).Pairwise (fun a b => ltP a b = true) :=
+  makeEvrdat_ascending dtstart ds h (keyInj_of_fits _ hf)
+
+theorem rdate_nodup (dtstart : Inst) (ds : List Inst) (h : ds.length < 1024)
+    (hf : ∀ x ∈ ds.map (soup dtstart), C08.Fits x) : (makeEvrdat dtstart ds).Nodup :=
+  nodup_of_ascending _ (rdate_ascending dtstart ds h hf)
+
+-- DTSTART 2020-01-01T09:00:00.000; RDATE 2020-03-01 (a DATE), 2020-01-05T10:00:00, 2020-03-01T09:00:00:
+-- the DATE becomes 09:00 and falls on the third; two instants come out, in order
+example : makeEvrdat ⟨2020, 1, 1, 9, 0, 0, 0⟩
+    [⟨2020, 3, 1, allDay, 0, 0, 0⟩, ⟨2020, 1, 5, 10, 0, 0, 0⟩, ⟨2020, 3, 1, 9, 0, 0, 0⟩]
+  = [⟨2020, 1, 5, 10, 0, 0, 0⟩, ⟨2020, 3, 1, 9, 0, 0, 0⟩] := by decide
+
+end evrdat
 
 end C02
